@@ -26,7 +26,14 @@ pub(super) fn derive_schema(input: TokenStream) -> syn::Result<TokenStream> {
             &*container_attrs.serde.from,
             &*container_attrs.serde.try_from,
         ) {
-            (None, None, None) => schema_of_fields(s.fields, &container_attrs.serde.rename_all, container_attrs.serde.default)?,
+            (None, None, None) => {
+                let fields = if container_attrs.serde.transparent {
+                    transparent_field_of(s.fields)?
+                } else {
+                    s.fields
+                };
+                schema_of_fields(fields, &container_attrs.serde.rename_all, container_attrs.serde.default)?
+            }
             (Some(t), _, _) | (_, Some(t), _) | (_, _, Some(t)) => {
                 let t = syn::parse_str::<Type>(t)?;
                 quote! {
@@ -122,6 +129,27 @@ pub(super) fn derive_schema(input: TokenStream) -> syn::Result<TokenStream> {
                     #enum_schema
                 }
             }
+        })
+    }
+
+    /// `#[serde(transparent)]`: the value is written as its one field that is not skipped,
+    /// so the struct is described as the newtype of that field
+    fn transparent_field_of(fields: Fields) -> syn::Result<Fields> {
+        let mut the_field = None;
+        for f in fields.iter() {
+            if !FieldAttributes::new(&f.attrs)?.serde.skip {
+                if the_field.is_some() {
+                    return Ok(fields)/* not what serde accepts as transparent */
+                }
+                the_field = Some(f.clone());
+            }
+        }
+        Ok(match the_field {
+            None => fields,
+            Some(f) => Fields::Unnamed(FieldsUnnamed {
+                paren_token: Default::default(),
+                unnamed: std::iter::once(syn::Field {ident: None, colon_token: None, ..f}).collect(),
+            })
         })
     }
 
